@@ -85,6 +85,8 @@ Definition cubic_main (c0 c1 c2 : T) : list T :=
   if d <? f0 then
     let sq := fsqrt (sv_mquarter * d) in
     let r := sv_mhalf * de in
+    (* both cube roots independently, as the code does; see [cubic_one_root_repaired] below for
+       the variant without cancellation (known finding C15-cubic-one-root-cancellation) *)
     let t1 := fcbrt (r + sq) + fcbrt (r - sq) in
     [t1 - c2]
   else if d =? f0 then
@@ -100,6 +102,35 @@ Definition cubic_main (c0 c1 c2 : T) : list T :=
     let r2 := fhalf * (- th_cos - ss3) in
     let t := f2 * fsqrt (- d0) in
     [ffma t r0 (- c2); ffma t r1 (- c2); ffma t r2 (- c2)].
+
+(* The one-root branch (d < 0) in isolation, as the code computes it ... *)
+Definition cubic_one_root_pinned (c0 c1 c2 : T) : T :=
+  let d0 := ffma (- c2) c2 c1 in
+  let d1 := ffma (- c1) c2 c0 in
+  let d2 := c2 * c0 - c1 * c1 in
+  let d := sv_4 * d0 * d2 - d1 * d1 in
+  let de := ffma (sv_m2 * c2) d0 d1 in
+  let sq := fsqrt (sv_mquarter * d) in
+  let r := sv_mhalf * de in
+  let t1 := fcbrt (r + sq) + fcbrt (r - sq) in
+  t1 - c2.
+
+(* ... and a repaired variant (NOT in the code; proposed_fixes/C15-cubic-one-root-cancellation.diff,
+   declined because it needs a test expectation corrected): the cube root that does not cancel,
+   the other one from u v = -d0.  Same real function; on binary64 the pinned form loses the
+   smaller cube root when |d0| is small (Properties/C15.v, C15_cubic_one_root_pinned_refuted). *)
+Definition cubic_one_root_repaired (c0 c1 c2 : T) : T :=
+  let d0 := ffma (- c2) c2 c1 in
+  let d1 := ffma (- c1) c2 c0 in
+  let d2 := c2 * c0 - c1 * c1 in
+  let d := sv_4 * d0 * d2 - d1 * d1 in
+  let de := ffma (sv_m2 * c2) d0 d1 in
+  let sq := fsqrt (sv_mquarter * d) in
+  let r := sv_mhalf * de in
+  let u := fcbrt (r + fcopysign sq r) in
+  let v := if u =? f0 then f0 else (- d0) / u in
+  let t1 := u + v in
+  t1 - c2.
 
 Definition solve_cubic (c0 c1 c2 c3 : T) : list T :=
   let c3_recip := f1 / c3 in
@@ -240,7 +271,10 @@ Fixpoint fq_newton (n : nat) (a b c d : T) (alpha_1 beta_1 alpha_2 beta_2 eps_t 
 (* the pair (g_prime, h_prime) *)
 Definition fq_gh (a b c d : T) (rescale : bool) : T * T :=
   let disc := sv_9 * a * a - sv_24 * b in
-  let s := if disc >=? f0 then sv_m2 * b / (f3 * a + fcopysign (fsqrt disc) a)
+  (* the guard [a != 0 || b != 0] was added by the repair commit f907a58: before it the code
+     evaluated 0/0 here for x^4 + c x + d and returned no roots *)
+  let s := if (disc >=? f0) && ((a <>? f0) || (b <>? f0))
+           then sv_m2 * b / (f3 * a + fcopysign (fsqrt disc) a)
            else sv_mquarter * a in
   let a_prime := a + sv_4 * s in
   let b_prime := b + f3 * s * (a + f2 * s) in
@@ -261,6 +295,11 @@ Definition fq_gh (a b c d : T) (rescale : bool) : T * T :=
      (a_prime * c_prime + sv_8 * d_prime - sv_two_ninths * fpowi b_prime 2) * sv_third * b_prime
        - fpowi c_prime 2
        - fpowi a_prime 2 * d_prime).
+
+(* the shift s as the code computed it before repair commit f907a58: 0/0 for a = b = 0 *)
+Definition fq_shift_pinned (a b : T) : T :=
+  let disc := sv_9 * a * a - sv_24 * b in
+  if disc >=? f0 then sv_m2 * b / (f3 * a + fcopysign (fsqrt disc) a) else sv_mquarter * a.
 
 Definition factor_quartic_inner (a b c d : T) (rescale : bool) : option ((T * T) * (T * T)) :=
   let '(g_prime, h_prime) := fq_gh a b c d rescale in
@@ -284,7 +323,11 @@ Definition factor_quartic_inner (a b c d : T) (rescale : bool) : option ((T * T)
     let finish (alpha_1 beta_1 alpha_2 beta_2 : T) :=
       Some (fq_newton 8 a b c d alpha_1 beta_1 alpha_2 beta_2
               (calc_eps_t a b c d alpha_1 beta_1 alpha_2 beta_2)) in
-    if d_2 <? f0 then
+    (* repair commit f907a58: d_2 below its own rounding level is treated as zero (before it the
+       code tested [d_2 < 0] / [d_2 == 0] only, "TODO: handle case d_2 is very small?") *)
+    let d_2_negligible :=
+      fabs d_2 <=? sv_8 * sv_EPS_M * fmax (fmax (fabs (sv_two_thirds * b)) (fabs phi)) (l_1 * l_1) in
+    if (d_2 <? f0) && negb d_2_negligible then
       let sq := fsqrt (- d_2) in
       let alpha_1 := l_1 + sq in
       let beta_1 := l_3 + sq * l_2 in
@@ -310,7 +353,7 @@ Definition factor_quartic_inner (a b c d : T) (rescale : bool) : option ((T * T)
           fq_pick_alpha a b c beta_1 beta_2 true cands (alpha_1, alpha_2, f0) in
         finish alpha_1 beta_1 alpha_2 beta_2
       else finish alpha_1 beta_1 alpha_2 beta_2
-    else if d_2 =? f0 then
+    else if (d_2 =? f0) || d_2_negligible then
       let d_3 := d - l_3 * l_3 in
       let alpha_1 := l_1 in
       let beta_1 := l_3 + fsqrt (- d_3) in
